@@ -39,6 +39,37 @@ thread_local! {
 #[global_allocator]
 static GLOBAL: tendril_hist::ledger::Ledger = tendril_hist::ledger::Ledger;
 
+/// K2: a `log` backend is installed in every worker and switched to the most verbose level for
+/// one case in eight (a function of the case index), off otherwise: everything the code under test
+/// formats only for its log lines runs there, with the output thrown away.
+struct DiscardLogger;
+impl log::Log for DiscardLogger {
+    fn enabled(&self, _: &log::Metadata) -> bool {
+        true
+    }
+    fn log(&self, record: &log::Record) {
+        // force the (lazy) formatting of the arguments
+        let _ = std::fmt::Write::write_fmt(&mut NullWriter, *record.args());
+    }
+    fn flush(&self) {}
+}
+struct NullWriter;
+impl std::fmt::Write for NullWriter {
+    fn write_str(&mut self, _: &str) -> std::fmt::Result {
+        Ok(())
+    }
+}
+static DISCARD_LOGGER: DiscardLogger = DiscardLogger;
+
+fn install_logger() {
+    let _ = log::set_logger(&DISCARD_LOGGER);
+    log::set_max_level(log::LevelFilter::Off);
+}
+
+fn logging_for_case(idx: u64) -> bool {
+    idx % 8 == 3
+}
+
 fn install_panic_hook() {
     std::panic::set_hook(Box::new(|info| {
         if tendril_hist::ledger::is_active() {
@@ -91,6 +122,7 @@ fn worker(args: &[String]) -> i32 {
         std::fs::File::from_raw_fd(fd)
     };
     install_panic_hook();
+    install_logger();
     // A memory-safety bug in the code under test can make a worker allocate without bound:
     // cap the address space so that it dies (and is reported as a crash) instead of taking
     // the machine down.
@@ -114,6 +146,10 @@ fn worker(args: &[String]) -> i32 {
     let mut samples_sent = 0;
     while idx < ncases {
         let _ = writeln!(proto, "S {idx}");
+        log::set_max_level(if logging_for_case(idx) { log::LevelFilter::Trace } else { log::LevelFilter::Off });
+        if logging_for_case(idx) {
+            stats.inc("K2_cases_run_with_the_log_backend_at_trace_level");
+        }
         let mut rng = Rng::for_case(seed, domain(prop), idx);
         let case = world.gen(&mut rng, thorough);
         let res = std::panic::catch_unwind(std::panic::AssertUnwindSafe(|| world.check(&case, &mut stats, &[])));
@@ -838,6 +874,9 @@ fn miri_replay(v: &Value, path: &str) -> i32 {
 
 fn replay_inner(args: &[String]) -> i32 {
     install_panic_hook();
+    // a replay runs with the log backend at its most verbose (a superset of what any case saw)
+    install_logger();
+    log::set_max_level(log::LevelFilter::Trace);
     let path = &args[0];
     let text = match std::fs::read_to_string(path) {
         Ok(t) => t,
